@@ -6,6 +6,8 @@ import (
 	"sort"
 	"time"
 
+	"verif/hdr"
+
 	"github.com/tokenized/bitcoin_reader/headers"
 	"github.com/tokenized/pkg/bitcoin"
 	"github.com/tokenized/pkg/wire"
@@ -172,6 +174,18 @@ func init() {
 		copy(rest, Msg(wire.NewMsgPing(SmuggledNonce)))
 		buf.Write(rest)
 		add("block[block2:1104-bytes]", Frame(wire.CmdBlock, buf.Bytes()))
+	}
+	// long headers messages of acceptable headers (for sessions with Options.Universe: the labelled
+	// header universe of verif/hdr, a straight chain above genesis): the count is a one-byte varint
+	// up to 252 entries and a three-byte one from 253 on
+	for _, n := range []int{252, 253, 300} {
+		chain := make([]*wire.BlockHeader, n)
+		label := "G"
+		for i := range chain {
+			label += "/a"
+			chain[i] = hdr.Get(label).Header
+		}
+		add("headers[universe-chain-"+itoa(n)+"]", Frame(wire.CmdHeaders, HeadersPayload(chain...)))
 	}
 	add("notfound", Frame(wire.CmdNotFound, invPayload(wire.InvTypeTx, *tx0.TxHash())))
 	add("getheaders", Msg(wire.NewMsgGetHeaders()))
